@@ -1,6 +1,6 @@
 (** C01 - every transport step conserves charge (kick part; the Fokker-Planck part is in
     Properties_C01 section FP below once the stencil model is loaded). *)
-From Coq Require Import List ZArith QArith Qcanon.
+From Coq Require Import List ZArith QArith Qcanon Lia Bool.
 From Inovesa Require Import Base.FieldKit Base.Sums Base.Float32 Gen.Gen_Coeffs Model.Kick
   Proofs.WeightsP Proofs.KickP Proofs.KickGridP.
 Local Open Scope Z_scope.
@@ -23,7 +23,7 @@ Theorem C01_y_kick_conserves :
   forall n nb it (offs D : Z -> Qc),
     valid_it it -> 0 < n < 2 ^ 30 -> 0 < nb ->
     (forall b x, 0 <= b < nb -> 0 <= x < n ->
-       row_ok n it (offs (Z.min b (nb - 1) * n + x)) (fun y => D (didx n b x y))) ->
+       row_ok n it (offs (Z.min b (nb - 1) * n + x)) (rtrunc n (fun y => D (didx n b x y)))) ->
     sumQ 0 (Z.to_nat (nb * n * n)) (apply_y n nb it (updateSM n it offs) D) =
     sumQ 0 (Z.to_nat (nb * n * n)) D.
 Proof. exact kick_y_conserves. Qed.
@@ -34,8 +34,29 @@ Theorem C01_x_kick_conserves :
   forall n nb it (offs D : Z -> Qc),
     valid_it it -> 0 < n < 2 ^ 30 -> 0 < nb ->
     (forall b y, 0 <= b < nb -> 0 <= y < n ->
-       row_ok n it (offs y) (fun x => D (didx n b x y))) ->
+       row_ok n it (offs y) (rtrunc n (fun x => D (didx n b x y)))) ->
     sumQ 0 (Z.to_nat (nb * n * n)) (apply_x n nb it (updateSM n it offs) D) =
     sumQ 0 (Z.to_nat (nb * n * n)) D.
 Proof. exact kick_x_conserves. Qed.
 Print Assumptions C01_x_kick_conserves.
+
+(** non-vacuity of the grid theorems: a 2-bunch 8x8 grid with charge in the interior of EVERY row
+    of both bunches meets the row hypothesis for a fractional offset *)
+Example C01_y_kick_hypotheses_satisfiable :
+  let D := fun i => if ((2 <=? i mod 8) && (i mod 8 <? 6))%bool then Qcz (1 + i mod 5) else 0%Qc in
+  forall b x, 0 <= b < 2 -> 0 <= x < 8 ->
+    row_ok 8 4 (Q2Qc (3 # 8)) (rtrunc 8 (fun y => D (didx 8 b x y))).
+Proof.
+  intros D b x Hb Hx. unfold row_ok.
+  assert (E : sp_int (poffs_split 8 (Q2Qc (3 # 8))) = 4) by (vm_compute; reflexivity).
+  rewrite E. unfold centre. cbn. repeat split; try lia.
+  exists 2, 6. repeat split; try lia.
+  intros i Hi. unfold rtrunc.
+  destruct ((0 <=? i) && (i <? 8))%bool eqn:T; [|reflexivity].
+  apply Bool.andb_true_iff in T. destruct T as [T1 T2]. apply Z.leb_le in T1. apply Z.ltb_lt in T2.
+  unfold D, didx.
+  replace ((b * 8 * 8 + x * 8 + i) mod 8) with i
+    by (symmetry; apply (Z.mod_unique_pos _ _ (b * 8 + x)); lia).
+  destruct ((2 <=? i) && (i <? 6))%bool eqn:U; [|reflexivity].
+  apply Bool.andb_true_iff in U. destruct U as [U1 U2]. apply Z.leb_le in U1. apply Z.ltb_lt in U2. lia.
+Qed.
